@@ -365,26 +365,44 @@ def compare(before, after, add):
         d = []
         diff(b["state"], a["state"], "state_dict[%s]" % oid, d)
         diff(lb["op"], la["op"], "%s" % oid, d)
-        diff(lb["tuning"], la["tuning"], "%s.tuning_parameter" % oid, d)
-        if d:
-            add("operator_state", {"operator": oid, "diffs": _dd(d)}, bucket=ocls)
+        diff(lb["tuning"], la["tuning"], "%s/tuning_parameter" % oid, d)
+        _by_field(add, "operator_state", d, {"operator": oid}, ocls)
         d = []
         diff(b["mass_matrix"], a["mass_matrix"], "state_dict[%s]/mass_matrix" % oid, d)
-        diff(lb["mass"], la["mass"], "%s.mass_matrix" % oid, d)
-        if d:
-            add("mass_matrix", {"operator": oid, "diffs": _dd(d)}, bucket=ocls)
+        diff(lb["mass"], la["mass"], "%s/mass_matrix" % oid, d)
+        _by_field(add, "mass_matrix", d, {"operator": oid}, ocls)
         d = []
         diff(b["integrator"], a["integrator"], "state_dict[%s]/integrator" % oid, d)
-        diff(lb["integrator"], la["integrator"], "%s.integrator" % oid, d)
-        if d:
-            add("integrator_state", {"operator": oid, "diffs": _dd(d)}, bucket="LeapfrogIntegrator")
+        diff(lb["integrator"], la["integrator"], "%s/integrator" % oid, d)
+        _by_field(add, "integrator_state", d, {"operator": oid}, "LeapfrogIntegrator")
         ba, aa = b["adaptors"] or {}, a["adaptors"] or {}
         for aid in sorted(set(ba) | set(aa) | set(lb["adaptors"]) | set(la["adaptors"])):
             d = []
             diff(ba.get(aid), aa.get(aid), "state_dict[%s]/adaptors[%s]" % (oid, aid), d)
             diff(lb["adaptors"].get(aid), la["adaptors"].get(aid), "%s" % aid, d)
-            if d:
-                add("adaptor_state", {"operator": oid, "adaptor": aid, "diffs": _dd(d)}, bucket=cls.get(aid, "?"))
+            _by_field(add, "adaptor_state", d, {"operator": oid, "adaptor": aid}, cls.get(aid, "?"))
+
+
+def _field(path):
+    """'op0.ad1/variance_estimator/_variance.dtype' -> 'variance_estimator.dtype': the attribute of the object and what was lost"""
+    import re
+
+    parts = path.split("/")[1:] or [path]
+    parts = [q for q in parts if not q.startswith("adaptors[") and q not in ("integrator", "mass_matrix")] or ["value"]
+    f = ".".join(parts)
+    f = re.sub(r"\[\d+\]", "", f)
+    f = re.sub(r"<\w+>", "", f)
+    m = re.search(r"\.(dtype|nn|shape)$", f)
+    return f.split(".")[0] + (m.group(0) if m else "")
+
+
+def _by_field(add, kind, diffs, info, cls):
+    groups = {}
+    for dd in diffs:
+        src = "state_dict:" if dd[0].startswith("state_dict[") else ""
+        groups.setdefault(src + _field(dd[0]), []).append(dd)
+    for fld, dl in sorted(groups.items()):
+        add("%s:%s" % (kind, fld), dict(info, diffs=_dd(dl)), bucket=cls, field=fld)
 
 
 # =========================================================================== in-process driver
